@@ -310,7 +310,7 @@ impl<T: Numeric> Atomic<T> {
         f: F,
     ) -> Result<T, E>
     where
-        F: FnOnce(T) -> Result<T, E>,
+        F: Fn(T) -> Result<T, E>,
     {
         self.branch(Action::Rmw, location);
 
@@ -321,7 +321,12 @@ impl<T: Numeric> Atomic<T> {
             if execution.path.is_traversed() {
                 let mut seed = [0; MAX_ATOMIC_HISTORY];
 
-                let n = state.match_rmw_to_stores(&execution.threads, &mut seed[..]);
+                let n = state.match_rmw_to_stores(
+                    &execution.threads,
+                    &mut seed[..],
+                    failure,
+                    |num| f(T::from_u64(num)).is_ok(),
+                );
                 execution.path.push_load(&seed[..n]);
             }
 
@@ -848,15 +853,36 @@ impl State {
         n
     }
 
-    fn match_rmw_to_stores(&self, threads: &thread::Set, dst: &mut [u8]) -> usize {
+    fn match_rmw_to_stores(
+        &self,
+        threads: &thread::Set,
+        dst: &mut [u8],
+        failure: Ordering,
+        succeeds: impl Fn(u64) -> bool,
+    ) -> usize {
         let mut n = 0;
         let cnt = self.cnt as usize;
+
+        // An operation that does not store (a failed `compare_exchange`) is a
+        // plain load with the failure ordering.
+        let mut loads = [0; MAX_ATOMIC_HISTORY];
+        let loads_len = self.match_load_to_stores(threads, &mut loads[..], failure);
+        let loads = &loads[..loads_len];
 
         // Unlike `match_load_to_stores`, rmw operations only load "newest"
         // stores, in terms of modification order.
         'outer: for i in 0..self.stores.len() {
             if i >= cnt {
                 // Not a real store
+                continue;
+            }
+
+            if !succeeds(self.stores[i].value) {
+                if loads.contains(&(i as u8)) {
+                    dst[n] = i as u8;
+                    n += 1;
+                }
+
                 continue;
             }
 
